@@ -37,6 +37,9 @@ def new_builder(res, relative):
 # requests
 # ---------------------------------------------------------------------------------------
 
+ALIGNED_P = float(os.environ.get("VERIF_C10_ALIGNED", "0.15"))
+
+
 def gen_request(rng, thorough):
     kind = rng.choice(["arc", "arc", "arc_helical", "arc_radius", "arc_radius", "circle", "helix", "helix", "helix_const",
                        "spiral", "thread", "spline", "polyline"])
@@ -61,9 +64,21 @@ def gen_request(rng, thorough):
         R = math.hypot(start[0] - cx, start[1] - cy)
         a0 = math.atan2(start[1] - cy, start[0] - cx)
         a1 = a0 + (sweep if ccw else -sweep)
+        aligned = kind in ("helix", "helix_const") and rng.random() < ALIGNED_P
         if kind == "circle":
             s["target"] = None
             s["sweep"] = TWO_PI
+        elif aligned:
+            # the target at exactly the start's angle about the centre: straight above / below the start (the docstring's own
+            # example) or further out on the same axis-parallel ray -- the residual angle is 0 and counts as a full turn
+            s["turns"] = rng.randint(1, 3)
+            z = start[2] + rng.choice([-1, 1]) * rng.uniform(0.5, 20)
+            if axis and kind == "helix":
+                k1 = loguniform(rng, 1.2, 3.0)
+                s["target"] = (start[0] - centre[0] * (k1 - 1), start[1] - centre[1] * (k1 - 1), z)
+            else:
+                s["target"] = (start[0], start[1], z)
+            s["has_z"] = True
         elif kind == "helix":
             R1 = R * loguniform(rng, 0.2, 3.0)
             s["turns"] = rng.randint(1, 4)
@@ -91,6 +106,8 @@ def gen_request(rng, thorough):
         d = loguniform(rng, 1.0, 200.0)
         ang = rng.uniform(-math.pi, math.pi)
         s["target"] = (start[0] + d * math.cos(ang), start[1] + d * math.sin(ang), start[2] + (rng.uniform(0, 10) if rng.random() < 0.5 else 0.0))
+        if rng.random() < ALIGNED_P:
+            s["target"] = (start[0] + round(d, 2), start[1], s["target"][2])     # on the +X ray from the start: residual angle 0
         s["has_z"] = rng.random() < 0.7
         s["turns"] = rng.randint(1, 4)
         size = d
@@ -411,6 +428,14 @@ def coq_script(s, geo, segs, ths, picks):
     lines = list(pre)
     lines.append("assert (HS : a_start %s %s %s %s = %s) by (unfold a_start; apply %s; %s)." % (OX, OY, CX, CY, e0, l0, SIDE))
     lines.append("assert (HE : a_end %s %s %s %s = %s) by (unfold a_end; apply %s; %s)." % (TX, TY, CX, CY, e1, l1, SIDE))
+    # a point exactly on the horizontal ray through the centre: atan (0 / x) = 0, so that exactly aligned start and target
+    # angles are compared as closed forms (the interval tactic cannot decide a - a' >= 0 for two enclosures of the same number)
+    if y0v == 0 and x0v != 0:
+        lines.append("assert (Z0 : %s / %s = 0) by (unfold Rdiv; replace %s with 0 by lra; ring)." % (ys0, xs0, ys0))
+        lines.append("rewrite Z0, atan_0 in HS.")
+    if y1v == 0 and x1v != 0:
+        lines.append("assert (Z1 : %s / %s = 0) by (unfold Rdiv; replace %s with 0 by lra; ring)." % (ys1, xs1, ys1))
+        lines.append("rewrite Z1, atan_0 in HE.")
     # the branch of enforce, as the implementation's own binary64 computation takes it
     a0f = float(np.arctan2(float(y0v), float(x0v)))
     a1f = float(np.arctan2(float(y1v), float(x1v)))
@@ -459,6 +484,10 @@ def main():
     reqs.insert(0, dict(kind="polyline", start=(3.0, 4.0, 1.0), ccw=True, relative=False, points=[(1.0, 1.0, 1.0), (0.0, 0.0, 0.0), (2.0, 0.0, 0.0)], dim=3, size=3.0, res=0.5))
     reqs.insert(0, dict(kind="spline", start=(0.0, 0.0, 0.0), ccw=True, relative=False, points=[(5.0, 5.0, 0.0), (10.0, 0.0, 0.0), (5.0, -5.0, 0.0), (0.0, 0.0, 0.0)], dim=3, size=7.0, res=0.5))
     reqs.insert(0, dict(kind="spline", start=(2.0, 1.0, 0.0), ccw=True, relative=True, points=[(6.0, 5.0, 0.0), (9.0, 1.0, 0.0), (6.0, 5.0, 0.0), (2.0, 8.0, 0.0)], dim=3, size=6.0, res=0.4))
+    # a helix straight up (the docstring's own use), one further out on the same ray, a spiral to a point on the +X ray
+    reqs.insert(0, dict(kind="helix_const", start=(12.0, 7.0, 0.0), ccw=True, relative=False, centre=(-5.0, 0.0), target=(12.0, 7.0, 6.0), has_z=True, turns=2, size=5.0, res=0.5))
+    reqs.insert(0, dict(kind="helix", start=(12.0, 7.0, 1.0), ccw=False, relative=True, centre=(0.0, -4.0), target=(12.0, 17.0, -3.0), has_z=True, turns=1, size=6.0, res=0.5))
+    reqs.insert(0, dict(kind="spiral", start=(-3.0, 2.0, 0.0), ccw=True, relative=False, target=(5.0, 2.0, 0.0), has_z=False, turns=2, size=8.0, res=0.5))
     for ccw in (True, False):
         for sign in (1, -1):
             reqs.insert(0, dict(kind="arc_radius", start=(3.0, 4.0, 0.0), ccw=ccw, relative=False, target=(13.0, 12.0, 0.0), has_z=False,
